@@ -14,7 +14,7 @@ pub const SUBID_ASSERT: &str = "Subscription identifier support is required";
 
 pub fn check(tier: Tier) -> Check {
     let parts = vec![
-        Part::new("C04/bytes", json!({"len": tier.pick(3, 5)}), 0, tier.pick(40, 900)),
+        Part::new("C04/bytes", json!({"len": tier.pick(4, 5)}), 0, tier.pick(40, 900)),
         Part::new("C04/prefix2", json!({}), 0, tier.pick(40, 300)),
         Part::new("C04/mutations", json!({"huge": tier == Tier::Thorough}), 0, tier.pick(40, 600)),
         Part::new("C04/faults", json!({}), 0, tier.pick(40, 300)),
